@@ -29,7 +29,10 @@ PROPS = {
             "assumptions": []},
     "C08": {"lean": ["WorkflowModel.Props.C08"], "suites": SIMADV, "modelled": ENGINE_MODELLED, "assumptions": ["operations atomic with respect to each other"]},
     "C09": {"lean": ["WorkflowModel.Props.C09"], "suites": SIM, "modelled": ENGINE_MODELLED, "assumptions": ["store = reference contract (Latest = newest created run)"]},
-    "C10": {"lean": ["WorkflowModel.Props.C10Shard"], "suites": ["pure-shards"] + SIM, "assumptions": []},
+    "C10": {"lean": ["WorkflowModel.Props.C10Shard", "WorkflowModel.Props.C10Launch"], "suites": ["pure-shards", "pure-launch"] + SIM,
+            "modelled": ["launch model lean/WorkflowModel/Model/Launch.lean: hand-written transcription of Workflow.Run over REGENERATED decisions (override, un-sharded below 2, loop condition); tied by pure-launch (roles awaited by the real Run vs the model) and the T2 launch/role strings",
+                         "string-level distinctness of role names is checked on the implementation for the generated configurations, not proved (process identities are proved distinct)"],
+            "assumptions": ["one builder entry per step status / timeout status / connector name / hook state (map keys; AddConnector panics on duplicates)"]},
     "C12": {"lean": ["WorkflowModel.Props.C12", "WorkflowModel.Props.C12Store"], "suites": SIMADV + ["sim-timeouts", "mem-timeoutstore"],
             "modelled": ENGINE_MODELLED + ["RefTimeouts (lean/WorkflowModel/Model/Adapters/RefTimeouts.lean) is the store contract; memtimeoutstore is tied to it by differential runs"],
             "assumptions": ["one timeout per status (two: finding F19)"]},
